@@ -153,7 +153,28 @@ const HVALUES: &[&str] = &[
 pub fn gen_headers(t: &mut Tape) -> Vec<(String, Vec<u8>)> {
     let n = [0u32, 1, 1, 2, 3, 4][t.draw(6) as usize];
     (0..n)
-        .map(|_| (t.pick(HNAMES).to_string(), t.pick(HVALUES).as_bytes().to_vec()))
+        .map(|_| {
+            let name = t.pick(HNAMES).to_string();
+            if t.chance(1, 8) {
+                // A long value (a token, words, or opaque bytes); lengths also come from the
+                // integers that occur in the crate's source, e.g. a line-length limit.
+                let len = match t.draw(3) {
+                    0 => crate::dict::pick_in(t.draw(1 << 16), 100, 9000).unwrap_or(1000) as usize,
+                    1 => [255usize, 256, 997, 998, 999, 1000, 4096, 8190][t.draw(8) as usize],
+                    _ => 100 + t.draw(3000) as usize,
+                };
+                let kind = t.draw(3);
+                let v: Vec<u8> = (0..len)
+                    .map(|i| match kind {
+                        0 => b"ABCDEFGHIJKLMNOPQRSTUVWXYZabcdefghijklmnopqrstuvwxyz0123456789+/"[(i * 7 + len) % 64],
+                        1 => if i % 9 == 8 && i + 1 != len { b' ' } else { b'a' + (i % 26) as u8 },
+                        _ => 0x80 + ((i * 13) % 0x7f) as u8,
+                    })
+                    .collect();
+                return (name, v);
+            }
+            (name, t.pick(HVALUES).as_bytes().to_vec())
+        })
         .collect()
 }
 
